@@ -94,6 +94,10 @@ META = {
         "R5 (returned collections): nodes found by a tree walk (findall/traverse) of X count as nodes of X.children; two returned "
         "collections over the same nodes are accepted only when one of them is emptied out of the tree first (`for m in msgs: "
         "m.parent.remove(m)` on every iteration, dominating the return) and the other is the live child list or a copy taken after that. "
+        "R4 (round 15): the transform that moves footnotes to the end of the document gathers them from all three footnote "
+        "registries (docutils resolves references against the registries, so a registered footnote from dropped content must be put "
+        "back into the tree), never by a tree walk or from a subset. R5: create_warning results collected by a list display / "
+        "comprehension are followed like singly assigned ones. "
         "R6: the first child a new section can receive, on every path, is its nodes.title (interprocedural may-append summary: "
         "direct appends, note_*_target(_, msgnode) where msgnode may be the node - also through a conditional expression or a helper that may hand its argument back -, create_warning(append_to=), becoming the current node; parameter guards of "
         "helpers evaluated against the call's literal arguments). "
@@ -1378,6 +1382,68 @@ def _dup_loop(cfg, st, names_src: list[str], needed: set[str]) -> tuple[str, str
     return "none", ""
 
 
+def _footnote_movers_read_registries(corpus: Corpus, rep: Report) -> None:
+    """docutils resolves footnote references against the document's footnote registries, not against the tree: a
+    registered footnote whose definition lay in content a directive parsed and dropped still receives refids.  The
+    transform that moves the footnotes to the end of the document is what puts those back into the tree, so it has to
+    gather its footnotes from all three registries - a tree walk, or a subset of the registries, leaves references with
+    a refid that no element carries."""
+    m = corpus.mod("mdit_to_docutils.transforms")
+    for fi in m.functions.values():
+        if fi.is_lambda:
+            continue
+        for node, recv, vals, how in _attach_events(fi):
+            if how not in ("+=", "append", "extend") or "document" not in unparse(recv):
+                continue
+            for v in vals:
+                if not isinstance(v, ast.Name):
+                    continue
+                lp = next((a for a in _ancestors(node) if isinstance(a, ast.For) and any(isinstance(x, ast.Name) and x.id == v.id for x in ast.walk(a.target))), None)
+                if lp is None:
+                    continue
+                src, chain = _element_source(fi, lp.iter, 0)
+                if src is None:
+                    continue
+                txt = unparse(src)
+                regs = {x.attr for x in ast.walk(src) if isinstance(x, ast.Attribute) and x.attr in FOOTNOTE_REGISTRIES and "document" in unparse(x.value)}
+                walks = any(w in txt for w in ("findall(", ".traverse(", ".findall(")) and "footnote" in txt
+                if not regs and not walks:
+                    continue  # not a collection of footnotes
+                rep.saw_function(fi.fq)
+                key = f"{fi.fq}|the footnotes moved by `{short(node, 40)}` are gathered from all footnote registries"
+                site = fi.module.site(src)
+                missing = set(FOOTNOTE_REGISTRIES) - regs
+                if walks and not regs:
+                    rep.violation("C03.R4", key, site, f"the footnotes are gathered by walking the tree (`{short(src, 50)}`): a registered footnote whose definition was in content a directive dropped is not in the tree, so it is not put back, while docutils has resolved references to it - their refid is the id of no element and no warning says so")
+                elif missing:
+                    rep.violation("C03.R4", key, site, f"`{short(src, 60)}` leaves out document.{'/'.join(sorted(missing))}: footnotes of that registry are neither moved nor put back when their definition was in dropped content, while references to them are resolved")
+                else:
+                    rep.ok("C03.R4", key, site, f"gathered from document.{', '.join(sorted(regs))}" + (f" via {chain}" if chain else ""))
+
+
+def _element_source(fi: FunctionInfo, it: ast.expr, depth: int) -> tuple[ast.expr | None, str]:
+    """The expression whose elements end up (possibly wrapped in tuples, sorted, copied) in the iterable ``it``."""
+    if depth > 4:
+        return None, ""
+    if isinstance(it, ast.Call) and dotted(it.func) in ("sorted", "list", "tuple", "reversed", "set") and it.args:
+        return _element_source(fi, it.args[0], depth + 1)
+    if isinstance(it, ast.Name) and it.id not in fi.params:
+        # a list filled in a loop / a comprehension
+        fills = [(n, lp_) for lp_ in fi.local_nodes() if isinstance(lp_, ast.For) for n in ast.walk(lp_) if isinstance(n, ast.Call) and isinstance(n.func, ast.Attribute) and n.func.attr in ("append", "extend") and isinstance(n.func.value, ast.Name) and n.func.value.id == it.id]
+        if fills:
+            lp_ = min((l for _, l in fills), key=lambda l: l.end_lineno - l.lineno)
+            inner, ch = _element_source(fi, lp_.iter, depth + 1)
+            return inner, f"`{it.id}`" + (f" <- {ch}" if ch else "")
+        v = _single_value(fi, it.id)
+        if v is not None:
+            inner, ch = _element_source(fi, v, depth + 1)
+            return inner, f"`{it.id}`" + (f" <- {ch}" if ch else "")
+        return None, ""
+    if isinstance(it, (ast.ListComp, ast.GeneratorExp)) and it.generators:
+        return _element_source(fi, it.generators[0].iter, depth + 1)
+    return it, ""
+
+
 def _registry_writes(corpus: Corpus, rep: Report) -> None:
     """docutils' Footnotes transform labels exactly the members of document.footnotes / autofootnotes /
     symbol_footnotes, and CollectFootnotes moves exactly those: MyST code may reorder a registry, never shrink it."""
@@ -1540,6 +1606,7 @@ def r4_footnote_shape(corpus: Corpus, rep: Report, tier: str):
     if n < 1:
         rep.error("C03.R4", "no footnote construction found")
     _registry_writes(corpus, rep)
+    _footnote_movers_read_registries(corpus, rep)
     if tier == "thorough":
         m = corpus.sibling("docutils/transforms/references.py")
         rep.saw_sibling(m.rel)
@@ -3067,9 +3134,18 @@ def _attach_and_return(corpus: Corpus, rep: Report) -> None:
                 continue  # warning callback handed to merge_file_level: every call of it discards the value (C14.R5)
             if isinstance(p, ast.Return) and fi.name == "create_warning":
                 continue  # the forwarding wrapper: its callers are the instances
+            # collected directly: `msgs = [create_warning(...) for w in ...]`, `[create_warning(...)]`, `x if x else []`
+            hops = 0
+            while isinstance(p, (ast.ListComp, ast.List, ast.Tuple, ast.IfExp, ast.GeneratorExp, ast.Starred)) and hops < 4:
+                p, hops = parent(p), hops + 1
+            if hops and isinstance(p, ast.Call) and dotted(p.func) in ("list", "tuple"):
+                p = parent(p)
             if not (isinstance(p, ast.Assign) and len(p.targets) == 1 and isinstance(p.targets[0], ast.Name)):
                 if isinstance(p, ast.Return):
-                    continue  # a wrapper returning the node; C14.R5 judges such wrappers
+                    if hops and (kwarg(c, "append_to") is None or (isinstance(kwarg(c, "append_to"), ast.Constant) and kwarg(c, "append_to").value is None)):
+                        continue  # returned in a fresh list, attached nowhere else here
+                    if not hops:
+                        continue  # a wrapper returning the node; C14.R5 judges such wrappers
                 raise Unsupported(f"result of `{short(c, 50)}` used in `{short(p, 50)}` in {fi.qualname}")
             n_used += 1
             var = p.targets[0].id
@@ -4315,6 +4391,14 @@ def mutants(corpus: Corpus):
     f = base.func("DocutilsRenderer.render_footnote_reference")
     it = find_node(f, lambda n: isinstance(n, ast.BinOp) and isinstance(n.op, ast.Add) and unparse(n.right).endswith(".autofootnotes") and unparse(n.left).endswith(".footnotes"))
     f = base.func("DocutilsRenderer.render_footnote_reference")
+    f = tf.func("CollectFootnotes.apply")
+    glp = find_node(f, lambda n: isinstance(n, ast.For) and all(r_ in unparse(n.iter) for r_ in FOOTNOTE_REGISTRIES))
+    if glp is not None:
+        add("c03-footnotes-gathered-by-walking-the-tree", "C03.R4", tf, glp.iter, "list(findall(self.document)(nodes.footnote))", "gathered from all footnote registries")
+        add("c03-symbol-footnotes-not-gathered", "C03.R4", tf, glp.iter, "self.document.footnotes + self.document.autofootnotes", "gathered from all footnote registries")
+        add("c03-auto-footnotes-not-gathered", "C03.R4", tf, glp.iter, "self.document.symbol_footnotes + self.document.footnotes", "gathered from all footnote registries")
+    else:
+        out.append(("c03-footnotes-gathered-by-walking-the-tree", "registry loop of CollectFootnotes.apply not found"))
     f = tf.func("SortFootnotes.apply")
     st = find_node(f, lambda n: isinstance(n, ast.Expr) and isinstance(n.value, ast.Call) and unparse(n.value.func).endswith(".autofootnotes.sort"))
     if st is not None:
